@@ -146,6 +146,8 @@ def swarm_weights(r, base, off_p=0.25, keep=()):
     return out
 
 
+INDEX_ATTRS = ("offset", "size", "address")
+
 OWN_BASE = {
     "new": 5.0,
     "setparent": 4.0,
@@ -209,6 +211,33 @@ class OwnProfile(Profile):
             return gen_own.gen_listop(w, r, pure=True)
         if fam == "setattr":
             return gen_own.gen_setattr(w, r)
+        if fam == "attr_index":
+            return gen_own.gen_setattr(w, r, kinds=("bi", "cb", "db"), attrs=INDEX_ATTRS)
+        if fam == "attr_sym":
+            return gen_own.gen_setattr(w, r, kinds=("sym",))
+        if fam == "se":
+            from . import gen_index
+
+            return gen_index.gen_se(w, r)
+        if fam == "se_pure":
+            from . import gen_index
+
+            return gen_index.gen_se(w, r, pure=True)
+        if fam == "cfg":
+            from . import gen_misc
+
+            return gen_misc.gen_cfg(w, r)
+        if fam == "cfg_pure":
+            from . import gen_misc
+
+            return gen_misc.gen_cfg(w, r, pure=True)
+        if fam == "bytes":
+            from . import gen_misc
+
+            return gen_misc.gen_bytes(w, r)
+        return self.gen_more(w, r, fam)
+
+    def gen_more(self, w, r, fam):
         return None
 
 
@@ -243,6 +272,7 @@ class C03(OwnProfile):
 @profile
 class C04(OwnProfile):
     prop = "C04"
+    base = dict(OWN_BASE, se=1.0, cfg=0.5)
     rule = (
         "one evaluation = one seeded ownership history interleaved with attribute edits on bystanders; "
         "after every step the forest invariants are scanned from both ends and every labeled node is "
@@ -263,7 +293,7 @@ class C04(OwnProfile):
 @profile
 class C16(OwnProfile):
     prop = "C16"
-    base = dict(OWN_BASE, setop=6.0, setop_pure=4.0, listop=5.0, listop_pure=2.0, setparent=1.5)
+    base = dict(OWN_BASE, setop=6.0, setop_pure=4.0, listop=5.0, listop_pure=2.0, setparent=1.5, se=4.0, se_pure=2.0)
     rule = (
         "one evaluation = one seeded history of collection calls (mutable set / sequence interface incl. mixins, "
         "failing calls, raising iterables) run side by side with built-in set/list on labels; compared: return "
@@ -278,8 +308,8 @@ class C16(OwnProfile):
 
     def after(self, w, op, out):
         d = OPS[op["op"]]
-        if op["op"] in ("setop", "listop"):
-            w.counters["meth:" + op["method"]] += 1
+        if op["op"] in ("setop", "listop", "se"):
+            w.counters["meth:" + op["op"] + "." + op["method"]] += 1
             compare_model(w, d.touched(w, op), ("C16",), owner_others=("C16",))
             if out is not None and out.kind == "exc":
                 # a failed operation leaves the collection and its elements consistent
@@ -375,12 +405,6 @@ class IndexProfile(OwnProfile):
         return super().gen(w)
 
     def gen_family(self, w, r, fam):
-        if fam == "attr_index":
-            return gen_own.gen_setattr(w, r, kinds=("bi", "cb", "db"), attrs=INDEX_ATTRS)
-        if fam == "se":
-            return gen_index.gen_se(w, r)
-        if fam == "se_pure":
-            return gen_index.gen_se(w, r, pure=True)
         return super().gen_family(w, r, fam)
 
     def after(self, w, op, out):
@@ -451,3 +475,132 @@ class C13(IndexProfile):
         c = super().config(r)
         c["kind_weights"] = {"ir": 0.4, "mod": 0.6, "sec": 1.0, "bi": 2.5, "cb": 0.3, "db": 0.3, "px": 0.1, "sym": 2.0}
         return c
+
+
+# ---------------------------------------------------------------------------
+# sym / cfg / bytes profiles
+
+from .ops_misc import inv_c10, inv_c11, inv_c19  # noqa: E402
+
+
+@profile
+class C10(OwnProfile):
+    prop = "C10"
+    name = "sym"
+    base = {"new": 4.0, "setparent": 4.0, "setop": 3.0, "attr_sym": 7.0, "listop": 0.7, "setattr": 0.5}
+    keep = ("new", "attr_sym")
+    rule = (
+        "one evaluation = one seeded history of symbol add/remove/move, renames (incl. to '' and to shared names), payload "
+        "switches block/proxy/int(0)/None and block/proxy/section/module moves; after every step symbols_named is compared "
+        "for every module x every name in use (plus unused ones) and references for every block and proxy, against scans of "
+        "the live structure. Non-trivial: >=1 rename and >=1 payload switch and >=1 move of a symbol or referent; distinct by op-kind sequence hash."
+    )
+
+    def config(self, r):
+        c = super().config(r)
+        c["steps"] = r.randrange(40, 80)
+        c["kind_weights"] = {"ir": 0.3, "mod": 1.2, "sec": 0.7, "bi": 0.7, "cb": 1.0, "db": 0.8, "px": 1.0, "sym": 3.0}
+        return c
+
+    def after(self, w, op, out):
+        inv_c10(w)
+        if op["op"] == "setattr" and w.m.nodes.get(op["label"]) is not None and w.m.nodes[op["label"]].kind == "sym":
+            if op["attr"] == "name":
+                w.counters["probe:rename"] += 1
+            if op["attr"] in ("referent", "value"):
+                w.counters["probe:payload_switch"] += 1
+        if op["op"] in ("setparent", "setop"):
+            w.counters["probe:moves"] += 1
+
+    def nontrivial(self, w):
+        return w.counters["probe:rename"] > 0 and w.counters["probe:payload_switch"] > 0 and w.counters["probe:moves"] > 0
+
+
+@profile
+class C11(OwnProfile):
+    prop = "C11"
+    name = "cfg"
+    base = {"new": 2.5, "setparent": 1.5, "cfg": 8.0, "cfg_pure": 2.0, "setop": 0.7, "listop": 0.4}
+    keep = ("new", "cfg")
+    rule = (
+        "one evaluation = one seeded history of set operations on ir.cfg (add/discard/remove/pop/clear/update and in-place "
+        "operators, over attached and free nodes, self-loops, parallel edges differing in label, None vs all-false label) run "
+        "side by side with a Python set of (source,target,label); after every step membership, length, iteration multiset, "
+        "out_edges/in_edges for every node and block incoming/outgoing_edges equal the reference. Non-trivial: >=5 CFG "
+        "mutations of >=3 kinds; distinct by op-kind sequence hash."
+    )
+
+    def config(self, r):
+        c = super().config(r)
+        c["steps"] = r.randrange(40, 80)
+        c["kind_weights"] = {"ir": 0.8, "mod": 1.0, "sec": 0.8, "bi": 0.8, "cb": 3.0, "db": 0.2, "px": 2.0, "sym": 0.1}
+        return c
+
+    def after(self, w, op, out):
+        if op["op"] == "cfg":
+            w.counters["meth:cfg." + op["method"]] += 1
+        inv_c11(w)
+
+    def nontrivial(self, w):
+        ms = [k for k in w.counters if k.startswith("meth:cfg.") and k[9:] in CfgMUT]
+        return len(ms) >= 3 and sum(w.counters[k] for k in ms) >= 5
+
+
+CfgMUT = ("add", "discard", "remove", "pop", "clear", "update", "ior", "isub", "iand", "ixor")
+
+
+@profile
+class C19(OwnProfile):
+    prop = "C19"
+    name = "bytes"
+    base = {"new": 3.0, "bytes": 7.0, "attr_index": 6.0, "setparent": 1.5, "setop": 0.7, "persist": 1.0}
+    keep = ("new", "bytes", "attr_index")
+    rule = (
+        "one evaluation = one seeded history of size / initialized_size assignments (initialized_size never above size), "
+        "whole and in-place contents edits within size, block offset/size edits (blocks partly or wholly beyond the stored "
+        "bytes), interval address edits, interleaved with save/restart; after every step: initialized_size == len(contents) "
+        "<= size, byte-array model equality, block address / contents / contains_offset / contains_address at probe points "
+        "around both ends; constructor rejects more bytes than size; every state saves and loads back. Non-trivial: >=1 "
+        "size shrink below the stored byte count or >=1 initialized_size change, and >=1 block partly beyond the stored bytes; "
+        "distinct by op-kind sequence hash."
+    )
+
+    def config(self, r):
+        c = super().config(r)
+        c["steps"] = r.randrange(30, 60)
+        c["kind_weights"] = {"ir": 0.3, "mod": 0.4, "sec": 0.7, "bi": 3.0, "cb": 1.5, "db": 1.5, "px": 0.0, "sym": 0.1}
+        c["allow_shrink"] = True
+        c["size_hi"] = r.choice([6, 12, 20])
+        c["off_hi"] = r.choice([6, 14])
+        c["p_bad_ctor"] = r.choice([0.0, 0.05, 0.1])
+        return c
+
+    def gen_family(self, w, r, fam):
+        if fam == "new" and r.random() < w.cfg.get("p_bad_ctor", 0):
+            # construction with more stored bytes than the size: must be rejected
+            n = r.randrange(1, 6)
+            return {"op": "new", "kind": "bi", "label": w.fresh("bi"), "uuid": r.getrandbits(128),
+                    "attrs": {"contents": bytes(r.randrange(256) for _ in range(n)).hex(), "size": r.randrange(0, n)}}
+        if fam == "new" and r.random() < 0.2:
+            n = r.randrange(0, 5)
+            size = n + r.randrange(0, 5)
+            return {"op": "new", "kind": "bi", "label": w.fresh("bi"), "uuid": r.getrandbits(128),
+                    "attrs": {"contents": bytes(r.randrange(256) for _ in range(n)).hex(), "size": size, "initialized_size": r.randrange(0, size + 1)}}
+        return super().gen_family(w, r, fam)
+
+    def after(self, w, op, out):
+        inv_c19(w)
+        if op["op"] == "setattr" and op["attr"] == "size":
+            n = w.m.nodes.get(op["label"])
+            if n is not None and n.kind == "bi":
+                w.counters["probe:bi_size_set"] += 1
+        if op["op"] == "bytes" and op["method"] == "init_size":
+            w.counters["probe:init_size_set"] += 1
+        for kl in w.m.by_kind("cb", "db"):
+            k = w.m.nodes[kl]
+            if k.parent and k.a["offset"] + k.a["size"] > len(w.m.nodes[k.parent].a["contents"]) and k.a["size"] > 0:
+                w.counters["probe:block_beyond_bytes"] += 1
+                break
+
+    def nontrivial(self, w):
+        return (w.counters["probe:bi_size_set"] + w.counters["probe:init_size_set"]) > 0 and w.counters["probe:block_beyond_bytes"] > 0
